@@ -136,6 +136,9 @@ def check(repo, res, tier):
     n = IX.check_rows(repo, res)
     res.floor("row-assembly cases interpreted", n, 140)
     n2 = IX.check_entrypoints(repo, res)
+    res.rule("R-FRESH", "a solve returns the solution of the model as it stands: no stale result after the initial state, initial time or parameters change")
+    n3 = IX.check_histories(repo, res)
+    res.floor("solve histories interpreted", n3, 300)
     res.floor("entry-point cases interpreted", n2, 36)
     res.functions |= set(_ai.INLINED)
 
